@@ -12,10 +12,10 @@ NOT_ALLOWED = 'exception(NOTALLOWED)'           # AMQP hard error 530
 # methods a server may legitimately send on a non-zero channel, and what the client does
 SERVER_METHODS_N = {
     ('channel', 'Close'): 'slot_remove',         # C09: remove slot n, notify, answer CloseOk
-    ('channel', 'CloseOk'): 'slot_remove',       # C11/C04: reply to the caller, ClientClosedChannel to consumers
+    ('channel', 'CloseOk'): 'slot_remove',       # C11/C04: ClientClosedChannel to consumers, then the reply to the caller
     ('basic', 'ConsumeOk'): 'send',              # C04: tag + receiver back to the caller
     ('basic', 'Cancel'): 'send',                 # C11: ServerCancelled
-    ('basic', 'CancelOk'): 'send',               # C11: ClientCancelled after replying
+    ('basic', 'CancelOk'): 'send',               # C11: ClientCancelled, then the reply
     ('basic', 'Deliver'): 'collect_deliver',     # C03
     ('basic', 'Return'): 'collect_return',       # C03/C13
     ('basic', 'GetOk'): 'collect_get',           # C03/C04
@@ -112,11 +112,12 @@ DRAIN_ALL = 'io_loop::channel_slots::ChannelSlots::drain(inner.chan_slots)'
 def notify_all(slot_msg, consumer_msg):
     """every open channel's caller and every consumer of every channel is told (C08)"""
     cons = 'std::collections::HashMap::drain(%s.1.consumers)' % item(DRAIN_ALL)
+    # per slot: the consumers' terminal messages first, then the slot's caller (D12: a released caller may drop its consumers)
     return [
         DRAIN_ALL,
-        '%s > %ssend(%s.1.tx, %s)' % (for_(DRAIN_ALL), CS, item(DRAIN_ALL), slot_msg),
         '%s > %s' % (for_(DRAIN_ALL), cons),
         '%s > %s > %ssend(%s.1, %s)' % (for_(DRAIN_ALL), for_(cons), CS, item(cons), consumer_msg),
+        '%s > %ssend(%s.1.tx, %s)' % (for_(DRAIN_ALL), CS, item(DRAIN_ALL), slot_msg),
     ]
 
 
@@ -155,16 +156,17 @@ ARM_SCRIPTS = {
     # C09: server closes channel n: only slot n is touched
     ('Method', 'n', 'channel', 'Close'): [
         slot('slot_remove'),
-        '%ssend(%s.tx, Err(%s))' % (CS, _REMOVED, _SRV_CHAN_ERR),
     ] + notify_consumers_of(_REMOVED, 'consumer::ConsumerMessage::ServerClosedChannel(%s)' % _SRV_CHAN_ERR) + [
+        '%ssend(%s.tx, Err(%s))' % (CS, _REMOVED, _SRV_CHAN_ERR),
         'io_loop::Inner::push_method(inner, %s, %schannel::AMQPMethod::CloseOk(%schannel::CloseOk{}))' % (N, AP, AP),
     ],
     # C11/C04: server confirms the client's channel close (a missing slot is the documented Close/CloseOk race)
     ('Method', 'n', 'channel', 'CloseOk'): [
         slot('slot_remove'),
+    ] + notify_consumers_of(_REMOVED_OK, 'consumer::ConsumerMessage::ClientClosedChannel', 'case(%s ~ Ok(_)) > ' % slot('slot_remove')) + [
         'case(%s ~ Ok(_)) > %ssend(%s.tx, Ok(io_loop::ChannelMessage::Method(%sAMQPClass::Channel(%schannel::AMQPMethod::CloseOk(%s)))))'
         % (slot('slot_remove'), CS, _REMOVED_OK, AP, AP, payload('channel', 'CloseOk')),
-    ] + notify_consumers_of(_REMOVED_OK, 'consumer::ConsumerMessage::ClientClosedChannel', 'case(%s ~ Ok(_)) > ' % slot('slot_remove')),
+    ],
     # C04/C11: consume-ok: duplicate tag is an error; otherwise an unbounded queue is stored under the tag and handed to the caller
     ('Method', 'n', 'basic', 'ConsumeOk'): None,  # checked field-wise by R07.4 / R03.6 / R04
     # C11: server cancels a consumer: terminal message to the removed consumer, CancelOk unless nowait
@@ -176,14 +178,14 @@ ARM_SCRIPTS = {
         'unless(%s.nowait) > io_loop::Inner::push_method(inner, %s, %sbasic::AMQPMethod::CancelOk(%sbasic::CancelOk{consumer_tag: %s.consumer_tag}))'
         % (payload('basic', 'Cancel'), N, AP, AP, payload('basic', 'Cancel')),
     ],
-    # C11: server confirms the client's cancel: consumer removed, caller answered, then the terminal message
+    # C11: server confirms the client's cancel: consumer removed, its terminal message queued, then the caller answered (D12)
     ('Method', 'n', 'basic', 'CancelOk'): [
         slot('slot_get_mut'),
         _removed_consumer(payload('basic', 'CancelOk') + '.consumer_tag'),
-        '%ssend(%s.tx, Ok(io_loop::ChannelMessage::Method(%sAMQPClass::Basic(%sbasic::AMQPMethod::CancelOk(%s)))))'
-        % (CS, _SLOTM, AP, AP, payload('basic', 'CancelOk')),
         'case(%s ~ Some(_)) > %ssend(%s.Some.0, consumer::ConsumerMessage::ClientCancelled)'
         % (_removed_consumer(payload('basic', 'CancelOk') + '.consumer_tag'), CS, _removed_consumer(payload('basic', 'CancelOk') + '.consumer_tag')),
+        '%ssend(%s.tx, Ok(io_loop::ChannelMessage::Method(%sAMQPClass::Basic(%sbasic::AMQPMethod::CancelOk(%s)))))'
+        % (CS, _SLOTM, AP, AP, payload('basic', 'CancelOk')),
     ],
     # C04: no message for a get
     ('Method', 'n', 'basic', 'GetEmpty'): [
